@@ -229,6 +229,20 @@ def mixed_stream(tabs, rng, nitems, kinds, p_nmea_hdr):
             items.append(("noise", gen.noise(rng, rng.randrange(1, 12), inert=True), None))
         elif k == "zeros":
             items.append(("noise", bytes(rng.randrange(1, 6)), None))
+        elif k == "repeat":
+            prev = [x for x in items if x[0] == "frame"]
+            if prev:
+                items.append(prev[-1])           # the previous frame again, verbatim
+            else:
+                items.append(("frame", gen.frame(pays[i]), pays[i]))
+        elif k == "samelen":
+            prev = [x for x in items if x[0] == "frame"]
+            if prev:                              # a different frame of the same length as the previous one (unknown type)
+                n_ = len(prev[-1][2])
+                pl = bytes([0x12, 0x30]) + bytes(rng.getrandbits(8) for _ in range(max(0, n_ - 2)))
+                items.append(("frame", gen.frame(pl), pl))
+            else:
+                items.append(("frame", gen.frame(pays[i]), pays[i]))
         elif k == "syncnoise":
             items.append(("syncnoise", gen.noise(rng, rng.randrange(1, 10), inert=False), None))
         elif k == "falsesync":
@@ -246,7 +260,7 @@ def mixed_stream(tabs, rng, nitems, kinds, p_nmea_hdr):
 
 
 WELLFORMED = ["frame", "frame", "frame", "zero", "nmea", "nmea_lf", "ubx", "ubx_big", "noise"]
-WELLFORMED = WELLFORMED + ["zeros"]
+WELLFORMED = WELLFORMED + ["zeros", "repeat", "samelen"]
 HOSTILE = WELLFORMED + ["damaged", "syncnoise", "falsesync", "reserved", "nmea_unlisted", "zeros"]
 
 
@@ -430,6 +444,19 @@ def main():
             if not any(dmg):
                 dmg[rng.randrange(len(dmg))] = True
             frames = [damage(rng, gen.frame(pl)) if d else gen.frame(pl) for pl, d in zip(pays, dmg)]
+            if it % 3 == 0:
+                # verbatim repeats (as casters send station messages) whose copies are damaged in the payload only, checksum bytes intact
+                pl = pays[0]
+                f = gen.frame(pl)
+
+                def pdamage(fr):
+                    b = bytearray(fr)
+                    for _ in range(rng.choice([1, 1, 2, 3])):
+                        q = rng.randrange(24, (len(fr) - 3) * 8)
+                        b[q // 8] ^= 0x80 >> (q % 8)
+                    return bytes(b) if bytes(b) != fr else pdamage(fr)
+                frames = [f, pdamage(f), f, f, pdamage(f), pdamage(f)] + frames[1:4]
+                dmg = [False, True, False, False, True, True] + dmg[1:4]
             data = b"".join(frames)
             if len(data) > 9000:
                 continue
@@ -522,6 +549,28 @@ def main():
             poss = {k: v[1] for k, v in out.items()}
             if len(set(poss.values())) != 1:
                 em.violation("C17: options change how many bytes are consumed", {"stream": data.hex()}, {"consumed": {str(k): v for k, v in poss.items()}})
+            # validation off, a frame carrying the checksum bytes of the frame before it (same length): each parsed object must
+            # still be the decoding of its own slice
+            fr2 = [x for x in items if x[0] == "frame" and constructs(x[2])]
+            if fr2:
+                a_pl = fr2[0][2]
+                b_pl = bytes([a_pl[0], a_pl[1]]) + bytes((c + 1) & 255 for c in a_pl[2:])
+                if b_pl != a_pl and constructs(b_pl):
+                    fa = gen.frame(a_pl)
+                    fb_bad = gen.frame(b_pl)[:-3] + fa[-3:]
+                    seq = fa + gen.nmea_sentence(rng) + fb_bad + fa + fb_bad + gen.frame(b_pl)
+                    for lab in (1, 2):
+                        cfg = (0, 0, lab, True)
+                        res, st = add_file_case(em, p, seq, [], cfg, 8, "validate=0: frames carrying the previous frame's checksum bytes")
+                        em.direct_evaluations += 1
+                        for h, r in res:
+                            if r[0] == "Y" and (r[2] is None or r[2].payload != r[1][3:-3]):
+                                em.violation("C17: with validation off a frame is not decoded from its own bytes", {"stream": seq.hex(), "cfg": list(cfg)}, {"frame": r[1].hex()})
+                    em.direct_evaluations += 1
+                    m_a = p.RTCMReader.parse(fa, validate=0)
+                    m_b = p.RTCMReader.parse(fb_bad, validate=0)
+                    if m_b.payload != b_pl or m_a.payload != a_pl:
+                        em.violation("C17: static parse with validate=0 returns another frame's message", {"frame": fb_bad.hex(), "previous": fa.hex()}, {})
             # static parser
             for f, ok, fl in zip(frames, okp, flipped):
                 if not ok:
